@@ -136,6 +136,15 @@ func VerifC15_ConcurrentRecompile() {
 	go func() {
 		zzverif.Perturb()
 		bcA, errA = j.CompileRoute("r", zzDef(0))
+		// the request executes what it was handed while the other goroutine may be
+		// promoting the route: the bytes it reads must not be written concurrently
+		if errA == nil {
+			m := vm.NewVM()
+			m.SetLocal("input", vm.IntValue{Val: 1})
+			m.SetMaxSteps(1000)
+			zzverif.Perturb()
+			m.Execute(bcA)
+		}
 		done <- struct{}{}
 	}()
 	go func() {
@@ -191,4 +200,45 @@ func VerifC15_TwoRoutesHot() {
 		}
 	}
 	zzverif.Reach("tworoutes")
+}
+
+// Bytecode a caller got earlier stays what it was: a request may still be
+// executing it when the route is promoted to the next tier. Every slice handed
+// out during a tier-up history is executed again at the end and must still mean
+// the definition it was compiled from. The route's body has a foldable
+// subexpression, so the tiers differ in length.
+func VerifC15_HeldBytecodeSurvivesTierUp() {
+	j := NewJITCompilerWithConfig(2, 0)
+	in := &ast.VariableExpr{Name: "input"}
+	lit := func(v int64) ast.Expr { return &ast.LiteralExpr{Value: ast.IntLiteral{Value: v}} }
+	// > input + (2 * 3 + 4)   and a variant with a longer constant expression
+	var body ast.Expr = &ast.BinaryOpExpr{Op: ast.Add, Left: in, Right: &ast.BinaryOpExpr{Op: ast.Add, Left: &ast.BinaryOpExpr{Op: ast.Mul, Left: lit(2), Right: lit(3)}, Right: lit(4)}}
+	want := int64(10)
+	if zzverif.Choice("shape", 2) == 1 {
+		body = &ast.BinaryOpExpr{Op: ast.Add, Left: &ast.BinaryOpExpr{Op: ast.Sub, Left: lit(9), Right: &ast.BinaryOpExpr{Op: ast.Mul, Left: lit(2), Right: lit(2)}}, Right: in}
+		want = 5
+	}
+	route := &ast.Route{Path: "/r", Method: ast.Get, Body: []ast.Statement{&ast.ReturnStatement{Value: body}}}
+	var held [][]byte
+	rounds := 3 + zzverif.Choice("rounds", 2)
+	for k := 0; k < rounds; k++ {
+		bc, err := j.CompileRoute("r", route)
+		if err != nil {
+			zzverif.Fail("jit-compile-error held-bytecode")
+		}
+		held = append(held, bc)
+		for e := 0; e < 3; e++ {
+			j.RecordExecution("r", time.Duration(5))
+		}
+	}
+	x := zzverif.Int64("input")
+	for _, bc := range held {
+		m := vm.NewVM()
+		m.SetLocal("input", vm.IntValue{Val: x})
+		m.SetMaxSteps(1000)
+		res, rerr := m.Execute(bc)
+		iv, ok := res.(vm.IntValue)
+		zzverif.Assert(rerr == nil && ok && iv.Val == x+want, "bytecode handed out earlier changed after a later tier-up")
+	}
+	zzverif.Reach("held")
 }
